@@ -471,6 +471,13 @@ def stb_tie(ctx, n):
             if "err" in r["model"]:
                 ctx.count("stb:model-" + r["model"]["err"][:32])
                 break
+            # Props/C01Lower.lean: hypotheses of `lower_id_correct` on this traced call, and the computed instance of its conclusion
+            if r.get("theorem_domain"):
+                ctx.count("stb:in-domain-of-lower_id_correct")
+                if not r.get("theorem_instance"):
+                    ctx.tie_broken("model:lower_id_correct-instance", f"einx.id({sc.desc!r}) shapes={sc.shapes(a)}: hypotheses hold but the validator rejects the model's program against denoteId")
+            elif "theorem_domain" in r:
+                ctx.count("stb:outside-domain-of-lower_id_correct")
             if "ok" not in r["real"]:
                 ctx.count("stb:real-untranslatable")
                 break
